@@ -117,13 +117,25 @@ class heap(object):
         return ptr_page["size"]
 
 
+def _sb_join(elements):
+    """Join @elements below the sandbox base directory; '.' and '..' are
+    resolved here so that the result never climbs above the base"""
+    out = []
+    for elt in elements:
+        if elt == '..':
+            if out:
+                out.pop()
+        elif elt and elt != '.':
+            out.append(elt)
+    return os.path.join(BASE_SB_PATH, *out)
+
+
 def windows_to_sbpath(path):
     """Convert a Windows path to a valid filename within the sandbox
     base directory.
 
     """
-    path = [elt for elt in path.lower().replace('/', '_').split('\\') if elt]
-    return os.path.join(BASE_SB_PATH, *path)
+    return _sb_join(path.lower().replace('/', '_').split('\\'))
 
 
 def unix_to_sbpath(path):
@@ -131,8 +143,7 @@ def unix_to_sbpath(path):
     base directory.
 
     """
-    path = [elt for elt in path.split('/') if elt]
-    return os.path.join(BASE_SB_PATH, *path)
+    return _sb_join(path.split('/'))
 
 def get_fmt_args(fmt, cur_arg, get_str, get_arg_n):
     idx = 0
